@@ -101,13 +101,37 @@ def effects_under(fn, stmts, val, env=None, keep=(), loops='stop', nm=None):
         decls = [d for c in ch if c is not None and c['k'] == 'DeclStmt' for d in kids(c) if d['k'] == 'VarDecl']
         rng = [d for d in decls if (d.get('name') or '').startswith('__range') and kids(d)]
         var = [d for d in decls if not (d.get('name') or '').startswith('__')]
-        if len(rng) != 1 or len(var) != 1 or not ch or ch[-1] is None or 'initializer_list' not in (rng[0].get('t') or ''):
+        if len(rng) != 1 or len(var) != 1 or not ch or ch[-1] is None:
             return None
-        lists = [x for x in walk(kids(rng[0])[0]) if x['k'] == 'InitListExpr']
-        if len(lists) != 1:
+        g = kids(rng[0])[0]
+        while g is not None and g['k'] in ('ImplicitCastExpr', 'ParenExpr') and kids(g):
+            g = kids(g)[-1]
+        gr = (g.get('ref') or {}) if g is not None else {}
+        if gr.get('k') in ('Global', 'StaticMember') and fn.prog is not None:
+            # a constant table: the rows are its compile-time value; a structured binding names the columns
+            gv = fn.prog.vars.get(gr['n']) or {}
+            rows = gv.get('val')
+            tq = var[0].get('t') or ''
+            if not isinstance(rows, list) or not gv.get('const') or ('&' in tq and 'const' not in tq):
+                return None
+            names = [b['name'] for b in (var[0].get('bindings') or [])]
+            out_rows = []
+            for row in rows:
+                if isinstance(row, int) and not names:
+                    out_rows.append({var[0]['name']: row})
+                    continue
+                cols = [x for x in row if not isinstance(x, list)] if isinstance(row, list) else None
+                if cols is None or not names or len(cols) != len(names) or not all(isinstance(x, int) for x in cols):
+                    return None
+                out_rows.append(dict(zip(names, cols)))
+            return var[0], out_rows, ch[-1]
+        if 'initializer_list' not in (rng[0].get('t') or ''):
             return None
         t = var[0].get('t') or ''
         if '&' in t and 'const' not in t:
+            return None
+        lists = [x for x in walk(kids(rng[0])[0]) if x['k'] == 'InitListExpr']
+        if len(lists) != 1:
             return None
         elems = []
         for el in kids(lists[0]):
@@ -115,7 +139,7 @@ def effects_under(fn, stmts, val, env=None, keep=(), loops='stop', nm=None):
             while e is not None and e['k'] in ('ImplicitCastExpr', 'ParenExpr') and kids(e):
                 e = kids(e)[-1]
             if nm0.cval(e) is not None:
-                elems.append(str(nm0.cval(e)))
+                elems.append(nm0.cval(e))
             elif e['k'] == 'UnaryOperator' and e.get('op') == '&' and (kids(e)[0].get('ref') or {}).get('k') in ('Local', 'Parm'):
                 elems.append('&' + short((kids(e)[0]['ref'])['n']))
             else:
@@ -157,13 +181,15 @@ def effects_under(fn, stmts, val, env=None, keep=(), loops='stop', nm=None):
                 var, elems, body = list_elements(st)
                 for el in elems:
                     mark = len(out)
-                    nm.env[var['name']] = el
-                    nm0.env[var['name']] = el
+                    bind = el if isinstance(el, dict) else {var['name']: el}
+                    nm.env.update(bind)
+                    nm0.env.update(bind)
                     try:
                         done = run([body])
                     finally:
-                        nm.env.pop(var['name'], None)
-                        nm0.env.pop(var['name'], None)
+                        for b_ in bind:
+                            nm.env.pop(b_, None)
+                            nm0.env.pop(b_, None)
                     out[mark:] = [re.sub(r'\*\(&(\w+)\)', r'\1', x) for x in out[mark:]]
                     if done:
                         if out and out[-1] == 'continue':
